@@ -59,6 +59,15 @@ CHECKS = {
  "C17": dict(cat="model_checking", tech="exhaustive enumeration of histories mixing Event / non-Event / look-alike keys, compactions and virtual-clock advances around the TTL, on engines with and without native TTL; versioned-map model with an 'may be wholly gone after TTL' rule",
    text="Every history up to the stated depth over 16 operations; after every step every key is compared with the model: non-Event keys never change, an Event may read absent only when its newest change is at least TTL old, and then wholly.",
    ref="4/C17"),
+ "C18": dict(cat="model_checking", tech="exhaustive execution of the request x role x proxy x leader-reachability matrix through the real servers and the real revision syncer (recording backend), plus preemption-bounded schedule exploration of the real syncer / single-flight group",
+   text="All 400 cells of the matrix are executed (25 request types of both APIs); a follower must never call a write or watch method of its backend, must adopt the leader's revision before any read and must fail the read when the revision cannot be obtained. Every schedule up to the bound of 2-3 follower reads against an advancing leader revision is explored on the real syncer.",
+   ref="4/C18"),
+ "C19": dict(cat="model_checking", tech="stateless model checking on a -race build: preemption-bounded DFS over all schedules with a ThreadSanitizer-invisible baton; the race detector is the per-execution oracle",
+   text="Every schedule up to the bound of 10 concurrent workloads (writers, readers, watchers, compactors, retry loop) on the real backend over memkv is executed on a binary built with the race detector, whose view contains only the program's own happens-before edges; a report with both accesses in the node's code or its in-process engine is a violation.",
+   ref="4/C19", note="Trusted: ThreadSanitizer (bounded history, reports once per stack pair per process); GOMAXPROCS=1 so that the plain-word baton is sound; scheduling points only at synchronisation operations."),
+ "C20": dict(cat="exploration", tech="bounded-exhaustive input enumeration through the real handlers of both APIs with the real Prometheus client (all single requests of a value lattice, all ordered pairs of a reduced set), plus a static pass over all metric emission call sites",
+   text="Every request of the lattice (incl. nil / empty / invalid-UTF-8 / NUL / long keys, negative and extreme revisions, unset sub-messages, unsupported shapes) is sent to a fresh node, singly and in every ordered pair of a reduced set; no panic, no process death, and a follow-up write must be committed and readable. All Emit* call sites are resolved to (name, kind, label names).",
+   ref="4/C20"),
 }
 
 NOT_YET = {}
